@@ -284,6 +284,15 @@ func GenMulti(c *Chooser, o GenOpts) *MultiWorld {
 			all = append(all, p)
 		}
 	}
+	if c.Weighted("world.nestednogit", 1, 12) {
+		// an example project inside the first repository: it has .github/workflows of its own but is no
+		// repository (no .git), so its workflows belong to the enclosing repository
+		root := mw.Repos[0].Root
+		p := root + "/examples/demo/.github/workflows/n0.yml"
+		disk.Put(p, []byte("on: push\njobs:\n  n:\n    runs-on: [self-hosted, gpu]\n    steps:\n      - run: echo ${{ vars.FOO }} ${{ vars.NOPE }}\n"))
+		all = append(all, p)
+		mw.Groups[p] = []string{"workflow-in-a-nested-directory-without-git"}
+	}
 	if o.Loose && c.Weighted("world.loosecalls", 1, 16) {
 		// a file outside every repository that calls local workflows (which cannot be resolved there)
 		lp := []string{"/tmp/loose-calls.yml", "/w/loose-calls.yml"}[c.Int("world.loosedir2", 2)]
@@ -401,7 +410,7 @@ func genIfaceWorkflow(c *Chooser) string {
 				fmt.Fprintf(&b, "        type: %s\n", t)
 				empty = false
 			}
-			if r := []string{"", "true", "false", "True", "TRUE", "False"}[c.Int("world.irequired", 6)]; r != "" {
+			if r := []string{"", "true", "false", "True", "TRUE", "False", "${{ true }}"}[c.Int("world.irequired", 7)]; r != "" {
 				fmt.Fprintf(&b, "        required: %s\n", r)
 				empty = false
 			}
